@@ -494,6 +494,42 @@ func (ex *Exec) opaqueVal(e ast.Expr, why string) Term {
 }
 
 func (ex *Exec) expr(e ast.Expr) Term {
+	t := ex.expr1(e)
+	switch e.(type) {
+	case *ast.Ident, *ast.SelectorExpr, *ast.IndexExpr, *ast.CallExpr:
+		ex.closedWorld(t, ex.info.TypeOf(e))
+	}
+	return t
+}
+
+// closedWorld: a non-nil value of a repository interface type is one of the repository's implementations
+func (ex *Exec) closedWorld(t Term, gt types.Type) {
+	if t.Sort.Kind != KAny || gt == nil || !ex.safetyOn || t.S == "nilAny" {
+		return
+	}
+	if tup, ok := gt.(*types.Tuple); ok {
+		if tup.Len() == 0 {
+			return
+		}
+		gt = tup.At(0).Type()
+	}
+	it, ok := types.Unalias(gt).Underlying().(*types.Interface)
+	if !ok || it.NumMethods() == 0 {
+		return
+	}
+	n, ok := types.Unalias(gt).(*types.Named)
+	if !ok || n.Obj().Pkg() == nil || !strings.HasPrefix(n.Obj().Pkg().Path(), repoMod) {
+		return
+	}
+	key := "cw:" + t.S
+	if len(t.S) > 80 || ex.notesSet[key] {
+		return
+	}
+	ex.notesSet[key] = true
+	ex.fact(Or(Eq(t, Term{"nilAny", SAny}), ex.U.IsType(t, gt)))
+}
+
+func (ex *Exec) expr1(e ast.Expr) Term {
 	if tv, ok := ex.info.Types[e]; ok && tv.Value != nil {
 		if t, ok := ex.constTerm(tv); ok {
 			return t
